@@ -133,7 +133,7 @@ Qed.
 (* the builders named in the property exist, convert, and pass the column on (or report a constant) *)
 Definition named : list string :=
   ["nesting.py"; "nesting.ts"; "nesting.rs"; "magic.py"; "magic.ts"; "magic.rs"; "srp.py"; "srp.ts"; "srp.rs";
-   "unwrap"; "clone"; "blocking"; "dry"; "print.py"; "print.ts"; "stateless"].
+   "unwrap"; "clone"; "blocking"; "dry"; "dry.constant.py"; "dry.constant.ts"; "print.py"; "print.ts"; "stateless"].
 Lemma named_builders :
   forallb (fun b => match builder b with Some (le, ce) => conv_ok le && col_plain ce | None => false end) named = true.
 Proof. vm_compute. reflexivity. Qed.
